@@ -135,3 +135,13 @@ func verifIsNative() bool                  { return true }
 func verifMaxAlloc() int                   { return 0 }
 func verifAllocReset()                     {}
 func verifNote(s string)                   {}
+
+// verifAdvance advances the (virtual) clock by d; natively it sleeps for d.
+func verifAdvance(d veriftime.Duration) { veriftime.Sleep(d) }
+
+// verifWake lets goroutines parked in time.Sleep run n more rounds (executor: gated sleep, //verif:sleep gate);
+// natively the harness uses a short real period, so waiting 12ms per round gives at least n rounds.
+func verifWake(n int) { veriftime.Sleep(veriftime.Duration(n) * 12 * veriftime.Millisecond) }
+
+// verifSettle lets woken goroutines run until they park again (executor: wait for quiescence; natively a short sleep).
+func verifSettle() { veriftime.Sleep(6 * veriftime.Millisecond) }
